@@ -4,6 +4,7 @@ import (
 	"fmt"
 	"go/token"
 	"go/types"
+	"os"
 	"sort"
 	"strings"
 
@@ -146,6 +147,9 @@ func ruleA1BSI(p *Prog) *RuleResult {
 				tabs = append(tabs, tab)
 			}
 			sort.Strings(tabs)
+			if os.Getenv("RB_DEBUG_TABS") != "" && strings.Contains(fname(f), os.Getenv("RB_DEBUG_TABS")) {
+				fmt.Fprintln(os.Stderr, "TABS", fname(f), tabs)
+			}
 			var bad, wit []string
 			for _, tab := range tabs {
 				pi, _, ok := rootParam(tab)
@@ -172,6 +176,16 @@ func ruleA1BSI(p *Prog) *RuleResult {
 					}
 					if strings.Contains(tab, "P0.eBM") {
 						ebm = true
+					}
+				}
+				// the existence bitmap may also be replaced as a whole: b.eBM = <new bitmap>
+				for _, bb := range f.Blocks {
+					for _, ins := range bb.Instrs {
+						if st, ok := ins.(*ssa.Store); ok {
+							if _, ok := st.Addr.(*ssa.FieldAddr); ok && e.funcState(f).root(st.Addr) == "P0.eBM" {
+								ebm = true
+							}
+						}
 					}
 				}
 				if planes {
